@@ -2585,6 +2585,10 @@ static iwrc _jbl_target_apply_patch(struct jbl_node *target, const struct jbl_pa
       if (!value) {
         return JBL_ERROR_PATH_NOTFOUND;
       }
+      if (op == JBP_COPY) { // the source stays where it is: link a copy, not the source node itself
+        iwrc rc = jbn_clone(value, &value, pool);
+        RCRET(rc);
+      }
       if (op == JBP_SWAP) {
         ntmp = iwpool_calloc(sizeof(*ntmp), pool);
         if (!ntmp) {
